@@ -120,7 +120,7 @@ EXTENSIONS = {
  "C05": " Also: a second naming scheme with names of different lengths; 4-/5-tuples, odd-length arrays and lists in the pool; and a family in which a never-inspected witness stands next to an inspected one: on the satisfy_with_env path the verdict must depend on the inspected one alone (the unpruned path shows known finding D1(ii) there). A seventh supply per name: the expected value at a type differing only where the value has nothing (None's payload, the other side of a Left / Right, elements of an empty list).",
  "C06": " Also: every structural (AST) near miss of the small static programs through the program entry point; the engine is built with overflow checks, so an unintended arithmetic wrap is a panic.",
  "C07": " Also (types only): list bounds 1024..65536, arrays up to 4097 elements, tuples up to 100 components.",
- "C08": " Also: list literals whose elements are direct witness expressions (all / every other element). List source param::XS written directly as the fold operand (instantiated form run, literal form evaluated by R2).",
+ "C08": " Also: list literals whose elements are direct witness expressions (all / every other element). List source param::XS written directly as the fold operand (instantiated form run, literal form evaluated by R2); two fold functions with equal body text and different parameter lists in one program (both orders, with wrong-expectation controls).",
  "C10": " Also: sibling blocks with nothing bound between them (tuple components, call arguments, consecutive statement blocks; S3) and sequences of 40..70 (thorough 130) statements in one scope (S4).",
  "C11": " Also: the library's own 256-bit decimal printer / parser (num::U256) on 812 boundary values. Sequences of two and three valid literals with equal digit strings across notations in one scope (program and witness module).",
  "C12": " Also: tuples of up to 9 components, arrays up to 9, nested n-ary argument types; names of different lengths; one name at two nominal types of equal layout must be rejected. A fifth option per parameter: an argument whose type differs only at a position its value does not inhabit.",
